@@ -145,6 +145,7 @@ Definition s_vc (s : state) v := mkState (now s) (th s) v (wqs s) (lown s) (lkd 
 Definition s_wqs (s : state) v := mkState (now s) (th s) (vc s) v (lown s) (lkd s) (nvc s) (trace s) (bad s).
 Definition s_lown (s : state) v := mkState (now s) (th s) (vc s) (wqs s) v (lkd s) (nvc s) (trace s) (bad s).
 Definition s_trace (s : state) v := mkState (now s) (th s) (vc s) (wqs s) (lown s) (lkd s) (nvc s) v (bad s).
+Definition s_bad (s : state) := mkState (now s) (th s) (vc s) (wqs s) (lown s) (lkd s) (nvc s) (trace s) true.
 
 Definition updT (s : state) (t : tid) (f : thr -> thr) : state := s_th s (updf (th s) t (f (th s t))).
 Definition updV (s : state) (v : vid) (f : vcpu -> vcpu) : state := s_vc s (updf (vc s) v (f (vc s v))).
@@ -291,8 +292,10 @@ Definition op_step (s : state) (v : vid) (t : tid) (o : op) : option state :=
   match o with
   | ONop => Some (finish_op s t 0 0)
   | OCreate k =>
-      if tstate_eqb (st (th s k)) NEW && Nat.leb (nvc s) k then
-        let s1 := updT s k (fun x => t_vcp (t_st x READY) v) in
+      (* a thread runs on the vCPU that created it (no migration): the model fixes each thread's vCPU in the
+         initial state (`home`) and a create from another vCPU is not executed *)
+      if tstate_eqb (st (th s k)) NEW && Nat.leb (nvc s) k && Nat.eqb (vcp (th s k)) v then
+        let s1 := updT s k (fun x => t_st x READY) in
         Some (finish_op (rq_append s1 v k) t 0 0)
       else Some (finish_op s t SKIPPED 0)
   | OYield =>
@@ -399,8 +402,12 @@ Definition thread_step (s : state) (v : vid) (t : tid) : option state :=
   | PNfBackoff c x all n =>
       Some (set_pc (updT s x (fun y => t_lk y None)) t (PNfRead c all n))
   | PNfGo c x all n =>
-      let s1 := updT s x (fun y => t_wk (t_err y (-1)) (WNotified t)) in
-      Some (set_pc (wake_by s1 v x) t (PNfUnlock c x all n))
+      (* prelocked_thread_interrupt (1459): `assert(th->state == SLEEPING)` is compiled out; a head that is
+         not SLEEPING would be outside the domain where the C++ is defined: `bad` (theorem never_bad) *)
+      if tstate_eqb (st (th s x)) SLEEPING then
+        let s1 := updT s x (fun y => t_wk (t_err y (-1)) (WNotified t)) in
+        Some (set_pc (wake_by s1 v x) t (PNfUnlock c x all n))
+      else Some (set_pc (s_bad s) t (PNfUnlock c x all n))
   | PNfUnlock c x all n =>
       let s1 := updT s x (fun y => t_lk y None) in
       if all then Some (set_pc s1 t (PNfRead c true (S n)))
@@ -499,10 +506,10 @@ Definition step (s : state) (a : label) : option state :=
 Definition thr0 : thr := mkThr NEW O 0 None 0 None PIdle [] O (fun _ => false) WNone.
 Definition VSTART : Z := 1000.                                        (* e2::VCLOCK_START *)
 (* nv vCPUs; thread k < nv is the main thread of vCPU k (RUNNING); programs by `progs` *)
-Definition init (nv : nat) (kinds : lid -> lkind) (progs : tid -> list op) : state :=
+Definition init (nv : nat) (kinds : lid -> lkind) (home : tid -> vid) (progs : tid -> list op) : state :=
   mkState VSTART
     (fun t => let r := t_prog thr0 (progs t) in
-              if Nat.ltb t nv then t_vcp (t_st r RUNNING) t else r)
+              if Nat.ltb t nv then t_vcp (t_st r RUNNING) t else t_vcp r (home t))
     (fun v => mkVcpu (if Nat.ltb v nv then [Th v; Idl] else []) heap_empty [] None IStart)
     (fun _ => []) (fun _ => None) kinds nv [] false.
 
@@ -544,7 +551,7 @@ Definition blocked_of (s : state) (n : nat) : list (tid * nat) :=
 (* run a single-vCPU program: n threads, thread 0 is main *)
 Definition run_coop (fuel n : nat) (kinds : lid -> lkind) (progs : tid -> list op)
   : list ev * list (tid * nat) * Z * fin :=
-  let '(s, f) := coop fuel (init 1 kinds progs) in
+  let '(s, f) := coop fuel (init 1 kinds (fun _ => O) progs) in
   (trace s, blocked_of s n, now s, f).
 
 (* run an explicit schedule (multi-vCPU witnesses): stops at the first disabled step *)
